@@ -157,6 +157,9 @@ def body(chk, exe, scratch, proof_ok, detail):
                 # it leaks without any failure as well: the finding belongs to the function that allocated the block
                 always_leaking.update(owners)
                 sig = "%s@alloc%d" % (resfam.func_of(lost[0][0]), lost[0][1])
+        if "X" in fc.get("out", ""):
+            i = fc["out"].index("X")
+            bad.append("call #%d of the scenario (hash_check): an object that existed before the failed call no longer yields the digest of the bytes it absorbed" % (i + 1))
         if fc.get("badfree", "0") != "0":
             bad.append("free of a pointer the allocator did not hand out (%s)" % fc.get("badfree"))
         if fc.get("badclose", "0") != "0":
